@@ -304,7 +304,7 @@ def C01(ctx):
     pipeline_mc(ctx, q)
     mb = 0 if q else 1
     req_campaign(ctx, [("sigmut", 0), ("mut_struct", 0), ("mut_key", 0), ("mut_body", mb), ("mut_uri", mb), ("mut_hdr", mb),
-                       ("s3hash", 0), ("zerokey", 0), ("fold", 1)]
+                       ("s3hash", 0), ("zerokey", 0), ("fold", 1), ("foldmethod", 0)]
                  + ([] if q else [("base", 1)]))
     logical_campaign(ctx, 400 if q else 20000)
     return dict(
@@ -369,7 +369,7 @@ def C05(ctx):
     q = ctx.quick
     pipeline_mc(ctx, q)
     fn_campaign(ctx, [("vreqs", 3)], [])
-    req_campaign(ctx, [("reqs", 0 if q else 2), ("reqfold", 0)])
+    req_campaign(ctx, [("reqs", 0 if q else 2), ("reqfold", 0), ("defects", 1)])
     return dict(
         rule="E: every combination of always-required {content-type, x-req}, conditionally required {etag, x-opt} and "
              "prefix {x-amz, x-a} sets (64) in lower / UPPER / mIxEd case through the slice, vec(new) and vec(add_*) "
@@ -401,7 +401,7 @@ def C12(ctx):
     q = ctx.quick
     pipeline_mc(ctx, q)
     fn_campaign(ctx, [("foldsize", 0)], [])        # bodies whose folded URI would not fit (arithmetic predicate)
-    req_campaign(ctx, ([("fold", 0), ("fold", 1)] if q else [("fold", 1), ("fold", 2)]) + [("s3hash", 0), ("charsets", 0 if q else 1)])
+    req_campaign(ctx, ([("fold", 0), ("fold", 1)] if q else [("fold", 1), ("fold", 2)]) + [("s3hash", 0), ("charsets", 0 if q else 1), ("foldmethod", 0)])
     return dict(
         rule="E: URL parameter lists x body parameter lists over names {a, b} x values {1, 2, empty} (incl. the same name in "
              "both) x 13 content types (exact, charset utf-8/UTF8/unicode-1-1-utf-8/foobar/latin1/empty, extra params, "
@@ -569,7 +569,7 @@ def C18(ctx):
     corpus = os.path.join(ctx.sub("corpus"), "cases.ndjson")
     with open(corpus, "w") as w:
         for fam, bound in [("base", 0 if q else 1), ("defects", 1), ("dup", 0), ("fold", 1), ("reqs", 0), ("leak_long", 0),
-                           ("reqfold", 0)]:
+                           ("reqfold", 0), ("midnight", 0), ("window_frac", 0)]:
             cases, n = tlc_gen(ctx, "Gen_Req", {"Family": fam, "Bound": bound}, "%s-%s" % (fam, bound))
             lines = [x for x in open(cases).read().split("\n") if x]
             if q and len(lines) > 400:
